@@ -358,9 +358,25 @@ func (c *xsyncMapOf[K, V]) DeleteExpired() {
 	c.items.Range(func(k K, v itemOf[V]) bool {
 		i := v
 		if i.expiredWithNow(now) {
-			c.items.Delete(k)
-			if ec != nil {
-				evictedItems = append(evictedItems, kvOf[K, V]{k, i.v})
+			// Re-check under the bucket lock: the entry may have been
+			// replaced or removed since the snapshot was taken.
+			var (
+				removed itemOf[V]
+				deleted bool
+			)
+			c.items.Compute(k, func(cur itemOf[V], loaded bool) (itemOf[V], bool) {
+				if !loaded {
+					return cur, true
+				}
+				if !cur.expiredWithNow(now) {
+					// k has a new value
+					return cur, false
+				}
+				removed, deleted = cur, true
+				return cur, true
+			})
+			if deleted && ec != nil {
+				evictedItems = append(evictedItems, kvOf[K, V]{k, removed.v})
 			}
 		}
 		return true
